@@ -382,13 +382,15 @@ pub fn exec(case: &Value) -> Value {
             // half of the steps use the (few) non ruin-recreate operators, so that every one of them is exercised
             let singles: Vec<usize> = (0..operators.len()).filter(|i| !operators[*i].1.contains('+')).collect();
             let pairs: Vec<usize> = (0..operators.len()).filter(|i| operators[*i].1.contains('+')).collect();
+            // three independent digits of the script number: pool, operator index, diversification (an earlier version
+            // derived all three from the same low bits, which never selected three of the single operators)
             let pool = if r % 2 == 0 && !singles.is_empty() { &singles } else { &pairs };
-            let (op, name, _) = &operators[pool[((*r / 2) as usize) % pool.len()]];
+            let (op, name, _) = &operators[pool[((*r / 16) as usize) % pool.len()]];
             let parent_before_full = if std::env::var("C04_DEBUG").is_ok() { Some(full_digest(&problem, &ids, &cur)) } else { None };
             let parent_before = sha(&full_digest(&problem, &ids, &cur));
             // one step in eight goes through the diversification composite of the default heuristic (hook H8b)
-            let (child, name) = if r % 8 == 6 && !diversify.is_empty() {
-                let mut out = diversify[(*r as usize / 8) % diversify.len()].diversify(&rctx, &cur);
+            let (child, name) = if (r / 2) % 8 == 6 && !diversify.is_empty() {
+                let mut out = diversify[(*r as usize / 16) % diversify.len()].diversify(&rctx, &cur);
                 if out.is_empty() { (op.search(&rctx, &cur), name.clone()) } else { (out.remove(0), "diversify".to_string()) }
             } else {
                 (op.search(&rctx, &cur), name.clone())
